@@ -40,25 +40,35 @@ class C20(Check):
                          "hostile_buffered_meets_spec", "hostile_model_meets_spec",
                          "unauth_limit_selected", "conn_delivers_only_within_limit", "unauth_peer_never_over_1MiB", "conn_model_meets_spec",
                          "send_recv", "tls_violation_rejected", "restore_record_safe",
+                         "tls_alloc_meets_spec", "restore_reads_all_frames", "state_model_meets_spec", "restore_decodes_dumped",
+                         "state_file_roundtrip", "number_float_int_path",
+                         "frames_until_over_limit", "framed_model_meets_spec_full",
                          ] + JSON_THEOREMS
     technique = ("Lean 4 proof (round-trip laws, 'accepted implies canonical', 'visible violation implies error', invariant over the chunked read loop, "
                  "induction over the receive loop of a connection) about hand-written executable models of the netstring readers/writer, the JSON codec, "
                  "JsonRpcConnection's limit selection + receive loop and ConfigObject::RestoreObject; correspondence by differential execution of the real "
                  "JsonEncode/JsonDecode, NetString::WriteStringToStream, the buffered NetString::ReadStringFromStream + StreamReadContext "
                  "(all chunkings of short streams, random chunkings of long ones), both TLS readers over a real TLS connection, a real started JsonRpcConnection "
-                 "(authenticated or not, identity with or without Endpoint object) and ConfigObject::RestoreObjects on hostile state files")
+                 "(authenticated or not, identity with or without Endpoint object), ConfigObject::RestoreObjects on hostile state files, and the real "
+                 "ConfigObject::DumpObjects -> file -> ConfigObject::RestoreObjects round trip with records from a few bytes to 3 MB (20 MB thorough); the largest "
+                 "single allocation made while a TLS read runs is measured (global operator new replaced in the harness) and judged by the allocation clause")
     level_text = ("Machine-checked theorems (Lean 4 kernel): for every payload and limit the TLS reader model returns exactly the payload of a canonical "
                   "frame and whatever it accepts is canonical; on every stream that VISIBLY violates the format (bad length field, wrong separator, over-limit "
                   "header, wrong terminator) it answers with an error — never a payload, never running on to the end of the stream (tls_violation_rejected); an "
                   "over-limit header is rejected with every byte after ':' unread and nothing allocated, and the allocation never exceeds the limit on any input; "
                   "for every payload list and EVERY chunking (also of every prefix of the stream) the buffered read loop yields exactly the complete frames and "
-                  "then EOF; on every byte stream the loop ends within a stated number of calls and items lie inside the buffer; JSON: decode(encode v) = v for "
+                  "then EOF, and with a limit exactly the frames before the first oversized one and then the limit error (frames_until_over_limit; "
+                  "framed_model_meets_spec_full: the framed-stream clause for ALL payload lists, no within-limit hypothesis); on every byte stream the loop ends within a stated number of calls and items lie inside the buffer; JSON: decode(encode v) = v for "
                   "every tree (all of Unicode, escapes, surrogate pairs, any nesting) over an abstract lawful number codec, instance integers proved; "
                   "JsonRpc::DecodeMessage hands the caller a dictionary exactly for JSON objects and rejects everything else with an error; sender and receiver "
                   "composed (send_recv); a connection selects the 1 MiB limit for every peer that is not authenticated whatever identity it claims, on ANY byte "
                   "stream delivers only messages from canonical frames within that limit (unauth_peer_never_over_1MiB), and for every frame sequence + arbitrary "
                   "tail meets the executable connection specification (conn_model_meets_spec); every state-file record is handled or refused with an error, "
-                  "never a crash (restore_record_safe, full statement since the repair of F-C20b). The models are tied to the code by running the real "
+                  "never a crash (restore_record_safe, full statement since the repair of F-C20b); the state file as a whole: for every list of records of ANY size "
+                  "(below 10^9) and every chunking, the file DumpObjects writes is read back by RestoreObjects' loop (which has no length limit) into exactly those "
+                  "dictionaries, none refused or lost (state_file_roundtrip, restore_reads_all_frames), and for every file and chunking the model of RestoreObjects meets "
+                  "the executable state-file clause (state_model_meets_spec); on every byte stream the payload buffer the TLS reader allocates meets the allocation "
+                  "clause that is evaluated on the allocation MEASURED in the real reader (tls_alloc_meets_spec). The models are tied to the code by running the real "
                   "functions on the same inputs and diffing every observation; the specification predicates are evaluated on the implementation's own observations")
     level_note = ("Trusted: Lean kernel (+ propext, Classical.choice, Quot.sound), sampled correspondence (exhaustive chunkings of short streams, random otherwise), "
                   "harness/driver. Assumed, not proved: nlohmann's float printer + strtod round trip (number codec law) — now CHECKED BIT-EXACTLY on the implementation: "
@@ -67,8 +77,10 @@ class C20(Check):
                   "Modelled and proved as well: the UTF-8 layer (utf8cpp validate_next/replace_invalid as Utility::ValidateUTF8 uses them; round trip composed down to bytes), "
                   "Dictionary's sorted-map semantics (encode order, duplicate keys: last wins), the limit selection `m_Endpoint ? -1 : 1 MiB` with the constructor's "
                   "`if (authenticated)` guard, the receive loop up to MessageHandler. Not modelled: JSON whitespace and raw non-ASCII inside JSON text (compared where the "
-                  "model accepts), NumberFloat's integer fast path for |x| >= 2^53 (oracle text, but bit-exact round trip), what MessageHandler does with a dictionary that "
-                  "is not the probe message, type/name lookup and Deserialize inside RestoreObject, Boost.Asio/OpenSSL, memory safety of the C++ (exercised: every operation "
+                  "model accepts), the floating-point printer behind NumberFloat (oracle text, but bit-exact round trip; NumberFloat's integer path itself IS modelled over binary64 bit patterns "
+                  "— IcingaModel/C20/Number.lean, theorem number_float_int_path — and the driver prints the literal itself and checks that no other number goes out as an integer literal), what MessageHandler does with a dictionary that "
+                  "is not the probe message, type/name lookup and Deserialize inside RestoreObject (exercised by the R cases: the attributes that come back are "
+                  "compared with the records of the file as the model decodes it), Serialize inside DumpObjects (the file it writes is an observation), Boost.Asio/OpenSSL, memory safety of the C++ (exercised: every operation "
                   "in a forked child, thorough tier additionally under ASan+UBSan builds of the codec sources). F-C20a (unbounded nesting overflowed the coroutine stack) is fixed "
                   "by 24727c0, F-C20b (state-file record `null` dereferenced a null pointer in RestoreObject) by 7e39c42: both are regression cases in corpus/C20.")
     trusted_base = [
@@ -89,6 +101,11 @@ class C20(Check):
         "a crash of a worker thread ends the forked child = clause no_crash",
         "thorough tier: json/netstring/stream/fifo/stdiostream/utility/jsonrpc .cpp are rebuilt with -fsanitize=address,undefined and the corpus plus the quick generator "
         "run through that harness (synchronous TLS reader only: ASan cannot follow exceptions on Boost coroutine stacks); a sanitizer report = clause no_crash",
+        "state-file round trip (R cases): two registered Host objects get check_attempt, a CheckResult with an output of n bytes and an arbitrary value as `command`; "
+        "ConfigObject::DumpObjects(FAState) writes the file, the objects are reset, ConfigObject::RestoreObjects reads it; observed: the file (when <= 6000 bytes) and what the "
+        "objects hold afterwards; values with a dictionary key `type` are not generated (Deserialize would instantiate an object: serializer semantics, not the wire format)",
+        "allocation probe: the harness replaces the global operator new/delete (malloc/free + a running maximum); the window is the call of JsonRpc::ReadMessage; "
+        "OpenSSL's own malloc and the kernel's socket buffers are not counted; the clause allows 256 KiB of bookkeeping/scratch buffers beside the limit",
         "a stream delivers to each FillFromStream call a chunk or end-of-file (FIFO never reports EOF: then the loop is compared up to the last need-data)",
     ]
     assumptions = [
@@ -357,7 +374,7 @@ class C20(Check):
         for f in glob.glob(self.work("asan", "report.*")):
             os.remove(f)
         self._env = dict(os.environ, C20_NO_CORO="1",
-                         ASAN_OPTIONS="abort_on_error=1:detect_leaks=0:detect_container_overflow=0:detect_stack_use_after_return=0:"
+                         ASAN_OPTIONS="abort_on_error=1:detect_leaks=0:alloc_dealloc_mismatch=0:detect_container_overflow=0:detect_stack_use_after_return=0:"
                                       "handle_segv=0:handle_abort=0:log_path=" + self.work("asan", "report"),
                          UBSAN_OPTIONS="print_stacktrace=1:halt_on_error=1:log_path=" + self.work("asan", "report"))
         try:
@@ -414,7 +431,9 @@ class C20(Check):
                     "an escape, a container or a fraction. Added: a real started JsonRpcConnection for all four combinations of authenticated x Endpoint-object-exists — probe messages of "
                     "every size around 1 MiB (exactly 1048576, one more, 2 MiB; thorough 10 MiB), byte-wise writes, hostile tails, 500 random streams (2500 thorough): observed = the "
                     "messages that reached the handler; ConfigObject::RestoreObjects on state files whose records are null / scalars / arrays / objects lacking or mistyping "
-                    "type, name, update, next to one applicable record, with framing mutations (1200 random files; 6000 thorough)")
+                    "type, name, update, next to one applicable record, with framing mutations (1200 random files; 6000 thorough), and with records of 4 KB to 300 KB "
+                    "before/behind the applicable one; R cases: DumpObjects -> RestoreObjects with outputs of 0 B to 3 MB (sizes around 4 KiB, 64 KiB, 1 MiB; 20 MB thorough) in the first or "
+                    "the second object and 400 random values (3000 thorough) as `command`; every T case carries the largest allocation made during the read")
         res.samples = [self._line(save, k)[:300] for k in (1, 2, 110100, 170100, 185000, 260000, 264000, 270000, 299000, 341500, 342500) if self._line(save, k)]
         self._collect(lines, save, harness, driver, res, "")
         if tier == "thorough":
@@ -423,7 +442,7 @@ class C20(Check):
 
     def replay(self, path, harness, driver):
         data = json.load(open(path))
-        lines = [l for l in data.get("case", []) if l[:2] in ("T ", "F ", "B ", "J ", "K ", "D ", "M ", "C ", "S ", "U ", "X ")]
+        lines = [l for l in data.get("case", []) if l[:2] in ("T ", "F ", "B ", "J ", "K ", "D ", "M ", "C ", "S ", "R ", "U ", "X ")]
         f = self.work("replay.ops")
         with open(f, "w") as fh:
             fh.write("\n".join(runner.strip_obs(l) for l in lines) + "\n")
